@@ -263,6 +263,20 @@ fn run_sequential(scn: &SenderScn, ctx: &Ctx, scratch: &Path) {
             }
         }
     }
+    // reserved set = live set: once the sender has drained and no object is left, exactly the handles
+    // the application still holds are reserved (a leaked reservation makes a TOI unusable for ever, a
+    // lost one lets it be handed out twice)
+    if trace.finished && trace.toi_reserved_at_end != trace.handles_held_at_end {
+        violate(
+            ctx,
+            "C15/reserved-set-differs-from-live-set",
+            &format!("{}-bit", width.bits()),
+            format!(
+                "at the end {} TOIs are reserved in the allocator but the application holds {} handles and the sender has no object left",
+                trace.toi_reserved_at_end, trace.handles_held_at_end
+            ),
+        );
+    }
     if !handle_alloc.is_empty() || !returned.is_empty() {
         ctx.borrow_mut().nontrivial = true;
     }
@@ -354,6 +368,14 @@ fn run_threads(
                 }
             }
             mine.push(t);
+        }
+        // reserved set = live set: every handle dropped by the other threads is free again
+        let reserved = sender.verif_toi_reserved_count();
+        if reserved != mine.len() {
+            let mut f = f2.lock().unwrap();
+            if f.is_none() {
+                *f = Some(format!("after all other threads dropped their handles {} TOIs are reserved but only {} handles are alive (a release was lost or a reservation duplicated)", reserved, mine.len()));
+            }
         }
     };
     flute::verif::sync::set_yield_hook(Some(shuttle_yield));
